@@ -28,7 +28,8 @@ def run(chk):
     sutmon.monitor_report(chk, 2)
     import c03
     c03.build_with_handler(chk)       # the guarantee side of the build() contract the exchange exploration assumes
-    keep = ('exchange-verifies-first', 'no-retry-after-forgery', 'forged-check-counts-as-failure', 'ping-bookkeeping', 'report-once', 'build-decorates-what-it-sends')
+    c03.builder_setters(chk)          # "when a CUP handler is configured": the one given to the builder is the one in use
+    keep = ('exchange-verifies-first', 'no-retry-after-forgery', 'forged-check-counts-as-failure', 'ping-bookkeeping', 'report-once', 'build-decorates-what-it-sends', 'builder-keeps-components')
     chk.obligations = [o for o in chk.obligations if o.name in keep]
     chk.bounds['paths'] = 'all paths of do_omaha_request_and_update_context (no loops); header value <= 4 bytes (irrelevant to this property)'
     chk.assumptions += [
